@@ -182,7 +182,8 @@ class _Smooth(_Algorithm):
 
         if max_half_window is None:
             max_half_window = optimize_window(data)
-        half_windows = _check_half_window(max_half_window, two_d=True)
+        # copy so that an input array is not modified when the values are clipped
+        half_windows = _check_half_window(max_half_window, two_d=True).copy()
         for i, half_window in enumerate(half_windows):
             if half_window > (self._size - 1) // 2:
                 warnings.warn(
